@@ -977,6 +977,23 @@ func (p *parser) parseFuncClauses(fc *FuncContract) error {
 				} else {
 					ac.K, _ = strconv.Atoi(t.text)
 				}
+			case "store":
+				// at store T.f [K]
+				a, err := p.ident()
+				if err != nil {
+					return err
+				}
+				if err := p.expectOp("."); err != nil {
+					return err
+				}
+				b, err := p.ident()
+				if err != nil {
+					return err
+				}
+				ac.At, ac.Callee, ac.K = "store", a+"."+b, 1
+				if p.peek().kind == "int" {
+					ac.K, _ = strconv.Atoi(p.next().text)
+				}
 			case "select":
 				ac.At = "select"
 				ac.K = 1
